@@ -183,6 +183,12 @@ func newHWorld(o hopts) (*hworld, error) {
 		Date: hotline.NewTime(time.Unix(1700000000, 0)), DataFlav: hotline.NewsFlavor, Data: "article body"}); err != nil {
 		return fail(err)
 	}
+	// aliases: to a file, to a folder, and one whose target is gone
+	for l, target := range map[string]string{"alias-file": "file.txt", "alias-folder": "Folder", "alias-dangling": "gone.txt"} {
+		if err := os.Symlink(filepath.Join(w.Root, target), filepath.Join(w.Root, l)); err != nil {
+			return fail(err)
+		}
+	}
 	// nested news items: a bundle and a category inside the bundle, and a category and a bundle one level deeper
 	for _, g := range []struct {
 		path []string
@@ -619,6 +625,12 @@ func (h *hworld) baseReq(t int, k, variant string) ([]sim.F, error) {
 	bad := func() ([]sim.F, error) { return nil, fmt.Errorf("no request for (%d, %q)", t, k) }
 	fileOrFolder := func() (string, bool) {
 		switch {
+		case strings.HasPrefix(k, "aliasfile"):
+			return "alias-file", true
+		case strings.HasPrefix(k, "aliasfolder"):
+			return "alias-folder", true
+		case strings.HasPrefix(k, "aliasdangling"):
+			return "alias-dangling", true
 		case strings.HasPrefix(k, "filelie"):
 			return "liar.txt", true
 		case strings.HasPrefix(k, "folderlie"):
